@@ -12,3 +12,31 @@ package keeper
 //@   requires #batch-bound: k.GetParams(ctx).LiquidationBatchSize <= pow2(62) && len(k.vault.GetVaults(ctx)) <= pow2(62)
 //@   nopanic
 
+
+//@ pred debtOf(v): v.AmountOut + v.InterestAccumulated + v.ClosingFeeAccumulated
+
+// Seizure of a vault (C09): only a vault whose ratio (collateral value / principal + interest + closing fee, at the oracle
+// price in force) is below the product's liquidation ratio is ever removed; emergency controls and a missing price stop it (C14);
+// exactly the recorded collateral moves from vault custody to auction custody and the vault counter follows (C01).
+//@ func (k Keeper) LiquidateIndividualVault
+//@   property C09, C14, C01
+//@   let v0 = k.vault.GetVault(ctx, vaultID).0
+//@   let vf0 = k.vault.GetVault(ctx, vaultID).1
+//@   let ep = k.asset.GetPairsVault(ctx, v0.ExtendedPairVaultID).0
+//@   let pair = k.asset.GetPair(ctx, ep.PairId).0
+//@   let din = k.asset.GetAsset(ctx, pair.AssetIn).0.Denom
+//@   let cr0 = k.vault.CalculateCollateralizationRatio(ctx, v0.ExtendedPairVaultID, v0.AmountIn, debtOf(v0))
+//@   requires #vault-keyed: vf0 ==> v0.Id == vaultID
+//@   requires #distinct-modules: modaddr("vaultV1") != modaddr("auctionsV2")
+//@   requires #count-covers-this-vault: vf0 ==> k.vault.GetLengthOfVault(ctx) >= 1
+//@   letpost gone = !k.vault.GetVault(ctx, vaultID).1
+//@   ensures [C09] #c09-only-unsafe: result == nil && vf0 && gone ==> cr0.1 == nil && cr0.0 < ep.MinCr
+//@   ensures [C09] #c09-error-keeps-vault-record: vf0 && !gone ==> k.vault.GetVault(ctx, vaultID).0.AmountIn == v0.AmountIn && k.vault.GetVault(ctx, vaultID).0.AmountOut == v0.AmountOut && k.vault.GetVault(ctx, vaultID).0.Owner == v0.Owner
+//@   fails_if [C14] #c14-breaker: vf0 && k.esm.GetKillSwitchData(ctx, v0.AppId).0.BreakerEnable
+//@   fails_if [C14] #c14-esm: vf0 && k.esm.GetESMStatus(ctx, v0.AppId).1 && k.esm.GetESMStatus(ctx, v0.AppId).0.Status
+//@   fails_if [C14] #c14-not-whitelisted: vf0 && !k.GetLiquidationWhiteListing(ctx, v0.AppId).1
+//@   fails_if [C14] #c14-price-unavailable: vf0 && cr0.1 != nil
+//@   ensures [C01] #c01-collateral-handed-over: result == nil && vf0 && gone ==> bal(modaddr("vaultV1"), din) == old(bal(modaddr("vaultV1"), din)) - v0.AmountIn && bal(modaddr("auctionsV2"), din) == old(bal(modaddr("auctionsV2"), din)) + v0.AmountIn
+//@   ensures [C01] #c01-count: result == nil && vf0 ==> k.vault.GetLengthOfVault(ctx) == old(k.vault.GetLengthOfVault(ctx)) - ite(gone, 1, 0)
+//@   ensures [C09] #c09-one-locked-vault: result == nil && vf0 && gone ==> k.GetLockedVaultID(ctx) == old(k.GetLockedVaultID(ctx)) + 1
+//@   ensures [C01] #c01-frame-vaults: forall j :: j != vaultID ==> k.vault.GetVault(ctx, j) == old(k.vault.GetVault(ctx, j))
